@@ -88,7 +88,9 @@ pub fn gen_cfg(rng: &mut Prng, max_work: usize, kinds: &[&str], engines: &[&str]
 }
 
 pub fn gen_originals(rng: &mut Prng, k: usize, sb: usize) -> Vec<Vec<u8>> {
-    let mode = rng.below(10);
+    let mode = rng.below(14);
+    // a block shared by all shards (butterfly partners then cancel to an all-zero block)
+    let shared = rng.bytes(64);
     (0..k)
         .map(|i| match mode {
             0 => vec![0u8; sb],
@@ -98,6 +100,29 @@ pub fn gen_originals(rng: &mut Prng, k: usize, sb: usize) -> Vec<Vec<u8>> {
                 let mut v = vec![0u8; sb];
                 if i == 0 {
                     v[0] = 1;
+                }
+                v
+            }
+            3 | 4 => {
+                // block-sparse: every 64-byte block is all-zero with probability 1/2
+                let mut v = rng.bytes(sb);
+                for b in 0..sb.div_ceil(64) {
+                    if rng.chance(1, 2) {
+                        for x in v[b * 64..((b + 1) * 64).min(sb)].iter_mut() {
+                            *x = 0;
+                        }
+                    }
+                }
+                v
+            }
+            5 | 6 => {
+                // shared prefix blocks: the first block(s) are identical in all shards
+                let mut v = rng.bytes(sb);
+                let nshared = if mode == 5 { 1 } else { sb.div_ceil(64).saturating_sub(1).max(1) };
+                for (j, x) in v.iter_mut().enumerate() {
+                    if j / 64 < nshared {
+                        *x = shared[j % 64];
+                    }
                 }
                 v
             }
